@@ -13,7 +13,9 @@ import (
 
 	"github.com/sirupsen/logrus"
 	"github.com/taskctl/taskctl/pkg/runner"
+	"github.com/taskctl/taskctl/pkg/scheduler"
 	"github.com/taskctl/taskctl/pkg/task"
+	"github.com/taskctl/taskctl/pkg/variables"
 
 	"verif/harness/internal/core"
 )
@@ -157,7 +159,25 @@ func Check(env *core.Env, rep *core.Report) *core.Result {
 			r.Stdout, r.Stderr = ioutil.Discard, ioutil.Discard
 			start := time.Now()
 			done := make(chan error, 1)
-			go func() { done <- r.Run(t) }()
+			viaStage := i%3 == 2
+			if viaStage {
+				// the same task as a pipeline stage with a stage-level variable (as every stage built
+				// from a configuration file has): the timeout must apply there too
+				st := &scheduler.Stage{Name: "s", Task: t, Variables: variables.FromMap(map[string]string{".Stage.Name": "s"})}
+				g, gerr := scheduler.NewExecutionGraph(st)
+				if gerr != nil {
+					core.Broken("graph: %v", gerr)
+				}
+				sd := scheduler.NewScheduler(r)
+				sd.VerifSetPause(time.Millisecond)
+				go func() {
+					e := sd.Schedule(g)
+					t = st.Task // the stage's own copy carries the result
+					done <- e
+				}()
+			} else {
+				go func() { done <- r.Run(t) }()
+			}
 			bound := time.Duration(j.s.Ticks)*tick + 1500*time.Millisecond
 			if j.shape == "ignore" {
 				bound += time.Duration(len(j.s.Expired)) * 3 * time.Second
@@ -178,7 +198,7 @@ func Check(env *core.Env, rep *core.Report) *core.Result {
 				}
 			}
 			want := j.s.tokens()
-			desc := fmt.Sprintf("[before=%v commands=%v after=%v allow_failure=%v shape=%s timeout=%s]", j.s.Bdur, j.s.Jdur, j.s.Adur, j.s.Allow, j.shape, to)
+			desc := fmt.Sprintf("[before=%v commands=%v after=%v allow_failure=%v shape=%s timeout=%s as-pipeline-stage=%v]", j.s.Bdur, j.s.Jdur, j.s.Adur, j.s.Allow, j.shape, to, viaStage)
 			det := map[string]interface{}{"scenario": j.s, "shape": j.shape, "observed_tokens": got, "elapsed_ms": el.Milliseconds(), "error": fmt.Sprint(err)}
 			var fs []core.Finding
 			add := func(kind, what string) {
